@@ -299,6 +299,17 @@ func finish(rr *runResult, noReplay bool, t0 time.Time) {
 			confirmed++
 			continue
 		}
+		if contains(rr.spec.EngineOnly, v.Tape.Harness) {
+			ok, note := engineConfirm(rr, v.Pkg, v.Tape, v.Label)
+			if ok {
+				confirmed++
+				violLines = append(violLines, fmt.Sprintf("VIOLATION property=%s replay=%s", id, tp))
+				replayNotes = append(replayNotes, filepath.Base(tp)+": "+note)
+			} else {
+				inconcl = append(inconcl, fmt.Sprintf("counterexample for %s not confirmed (%s), tape %s", v.Label, note, tp))
+			}
+			continue
+		}
 		if isToolHarness(v.Tape.Harness) {
 			ok, note := toolConfirm(rr, v.Pkg, v.Tape, v.Label)
 			if ok {
